@@ -567,3 +567,36 @@ func (p *Program) frozenFor(k string, fn *ssa.Function) bool {
 	}
 	return true
 }
+
+// BuildNonNilGlobals finds package-level pointer variables that are assigned a fresh allocation in their
+// package initialiser and never stored to anywhere else in the module: they are non-nil for good.
+func (p *Program) BuildNonNilGlobals() {
+	p.NonNilGlobals = map[*ssa.Global]bool{}
+	initAlloc := map[*ssa.Global]bool{}
+	otherStore := map[*ssa.Global]bool{}
+	for _, fn := range p.AllFuncs {
+		isInit := fn.Name() == "init" && fn.Signature.Recv() == nil
+		for _, b := range fn.Blocks {
+			for _, in := range b.Instrs {
+				st, ok := in.(*ssa.Store)
+				if !ok {
+					continue
+				}
+				g, ok := st.Addr.(*ssa.Global)
+				if !ok {
+					continue
+				}
+				if _, isAlloc := st.Val.(*ssa.Alloc); isAlloc && isInit {
+					initAlloc[g] = true
+				} else {
+					otherStore[g] = true
+				}
+			}
+		}
+	}
+	for g := range initAlloc {
+		if !otherStore[g] {
+			p.NonNilGlobals[g] = true
+		}
+	}
+}
